@@ -1744,7 +1744,7 @@ def _sweep_subclass_shadowing(ctx, repo):
     pairs = []
     classes = [c for c in repo.classes.values() if c.mod is sw]
     for c in classes:
-        if 'param_tuples' not in c.methods:
+        if 'param_tuples' not in c.methods or any('abstractmethod' in ast.unparse(dc) for dc in c.methods['param_tuples'].decorator_list):
             continue
         for d in classes:
             if d is not c and c in repo.mro(d)[1:] and 'param_tuples' in d.methods:
